@@ -4,7 +4,7 @@ from __future__ import annotations
 import z3
 
 from contracts import sealer as SC
-from verif.common import Ctx, Ob, Outcome
+from verif.common import Ctx, Ob, Outcome, Witness
 from verif.pyvc.adapter import contract_ob
 
 PROPERTY = "C15"
@@ -65,6 +65,39 @@ def ob_lemma(ctx: Ctx) -> Outcome:
     return Outcome.ok("z3", count=n)
 
 
+def ob_file_safe_escapes(ctx: Ctx) -> Outcome:
+    """C15.F1 — a sealed FILE is read back in text mode (universal newlines: CR and CRLF arrive as LF). Every character
+    the reader can DECODE from a backslash escape must therefore either be written back as an escape by the emitter's
+    chain or be a character text-mode reading leaves alone; otherwise a value spelled with that escape is hashed
+    with one character, written raw, and read back as another (the untouched sealed file stops verifying).
+    Decided on the two tables read from the source (the lexer's unescape table, the emitter's escape chain)."""
+    from props import C15_b
+    from props import lexical as LX
+
+    try:
+        kind, data = LX.lexer_unescape()
+        chain, _ = LX.emit_escape_chain()
+    except Exception as e:  # noqa: BLE001 - ExtractionError and friends: the shape is decided by the file probe
+        from verif.common import shape_verdict
+
+        return shape_verdict("ast-shape", [f"escape tables not readable: {e}"], lambda: C15_b.probe_sealed_files(), count=1, replay={"runner": "props.C15_b:probe_sealed_files", "args": {}})
+    decoded = set(data.values()) if kind == "table" else {b for _, b in data}
+    escaped = {a for a, _ in chain}
+    rewritten = {"\r", "\r\n"}  # what universal-newlines reading replaces by LF
+    wits = []
+    n = 0
+    for ch in sorted(decoded):
+        n += 1
+        if any(r in ch for r in ("\r",)) and not any(ch == a or (len(a) == 1 and a in ch) for a in escaped):
+            failed, text = C15_b.probe_sealed_files()
+            wits.append(Witness(what=f"the reader decodes an escape to {ch!r}, the emitter writes that character raw, and text-mode reading turns it into LF — {text[:400]}", key=f"decoded-raw|{ch!r}", input=repr(ch), replay={"runner": "props.C15_b:probe_sealed_files", "args": {}}, confirmed=failed))
+    if wits:
+        if not any(w.confirmed for w in wits):
+            return Outcome.undecided("ast-shape", "; ".join(w.what[:200] for w in wits))
+        return Outcome.refuted("ast-shape+table", wits, count=max(n, 1))
+    return Outcome.ok("ast-shape+table", count=max(n, 1), decoded=sorted(decoded), escaped=sorted(escaped), rewritten_by_text_mode=sorted(rewritten))
+
+
 def obligations(ctx: Ctx):
     P = PROPERTY
     obs = [
@@ -79,6 +112,8 @@ def obligations(ctx: Ctx):
     try:
         from props import C15_b
 
+        obs.append(Ob(f"{P}.F1", "F", "sealed files: every character the reader decodes from an escape is either re-escaped by the emitter or left alone by text-mode reading (no CR decoded and written raw)", ["octave_mcp.core.lexer:tokenize", "octave_mcp.core.emitter:emit_value"], ob_file_safe_escapes))
+        obs.append(Ob(f"{P}.B3", "B", "sealed files through the CLI: seal -o, validate --verify-seal on the file, re-seal; every escape form, LF and CRLF-stored sources", FUNCS, C15_b.ob_b3, timeout=1200))
         obs.append(Ob(f"{P}.B2", "B", "a change of the TYPE of one leaf (404 vs \"404\", true vs \"true\", null vs \"null\") under any key, in any position, invalidates the seal", FUNCS, C15_b.ob_b2, timeout=3000))
         obs.append(Ob(f"{P}.B1", "B", "model documents: seal/verify in memory and through text, re-seal, single-site tampering => INVALID, cosmetic respelling => VERIFIED", FUNCS, C15_b.ob_b1, timeout=3000))
     except ImportError:
